@@ -562,3 +562,4 @@ void interfere_q(Q *q) CONTRACT_interfere_q;
 #endif
 
 #include "notify.h"
+#include "exc.h"
